@@ -20,6 +20,7 @@ EXTRA = {
     "C07-2": ["C02"], "C05-2": ["C08"],
     "C06-3": ["C05"], "C10-4": ["C06"], "C09-3": ["C20"], "C02-3": ["C09"], "C02-4": ["C09"],
     "C04-4": ["C01"], "C08-3": ["C04"], "C08-4": ["C07"], "C05-3": ["C08"], "C03-4": ["C07"],
+    "C13-3": ["C14"], "C13-4": ["C15"], "C15-4": ["C13"], "C14-3": ["C13"], "C19-4": ["C20"], "C20-3": ["C19"],
 }
 
 
